@@ -10,7 +10,7 @@ CHECK = {
     "min_nontrivial": (100000, 2000000),
     "timeout": (900, 7200),
     "rule": ("object in {48 registered benchmark functions made at dims 1..32 (and 1..60 summands), 17 losses x 1..13 outputs x valid and "
-             "arbitrary +-1 / real target patterns, 11 constraint kinds with generated coefficients (symmetric P: low-rank PSD, PD, indefinite, "
+             "arbitrary +-1 / real target patterns, 11 constraint kinds with generated coefficients (P: low-rank PSD, PD, symmetric indefinite, general non-symmetric, non-symmetric upper triangular with a positive diagonal, "
              "diagonal, zero; functional constraints wrap benchmark functions), quadratic surrogate fit/opt functions, linear::function_t and "
              "the 3 gboost objectives over generated datasets (5..40 samples, 1..6 inputs, 1..3 targets, every loss of the matching family, "
              "l1/l2 in {0} U logu(1e-6,1e3), 4 scalings, batch 1..samples+1, sample subsets)}; x, z in boxes of radius logu(1e-3, 10) (30 for "
@@ -22,7 +22,7 @@ CHECK = {
              "batch around it changes, value >= 0, error >= 0, 0-1 error == arg-max / sign rule recomputed in the harness. Non-trivial: "
              "non-zero gradient, at least one derivative test not skipped, x != z for convex objects, and for classification losses the "
              "error rule was actually compared. Distinct = distinct serialised cases (64-bit hash)."),
-    "assumptions": ["quadratic constraint terms P are symmetric (0.5 x'Px + q'x + r with gradient Px + q, as every caller builds them)",
+    "assumptions": ["quadratic constraint terms P are symmetric in 5 of 7 generated modes and general in 2 (the gradient of 0.5 x'Px + q'x + r is 0.5 (P+P')x + q)",
                     "class targets are +-1; single-label targets have exactly one positive label for non-negativity and the error rule "
                     "(one-output binary layout: +-1; class-NLL needs a positive label)",
                     "rounding scale of a value = |f| + |f| at 0, +-1, (+1,-1,..) (constants hidden by internal cancellation) + argument magnitudes for losses",
